@@ -147,7 +147,8 @@ class ArmArch(Architecture):
                     yield thumb_instructions.SubSp(inc)
                     ssize -= inc
             else:
-                yield arm_instructions.SubImm(SP, SP, ssize)
+                for part in split_imm32(ssize):
+                    yield arm_instructions.SubImm(SP, SP, part)
 
         # Callee save registers:
         callee_save = self.get_callee_saved(frame)
@@ -164,7 +165,8 @@ class ArmArch(Architecture):
             if self.has_option("thumb"):
                 raise NotImplementedError()
             else:
-                yield arm_instructions.SubImm(SP, SP, ssize)
+                for part in split_imm32(ssize):
+                    yield arm_instructions.SubImm(SP, SP, part)
 
     def gen_epilogue(self, frame):
         """Return epilogue sequence for a frame.
@@ -185,7 +187,8 @@ class ArmArch(Architecture):
             if self.has_option("thumb"):
                 raise NotImplementedError()
             else:
-                yield arm_instructions.AddImm(SP, SP, ssize)
+                for part in split_imm32(ssize):
+                    yield arm_instructions.AddImm(SP, SP, part)
 
         # Callee save registers:
         callee_save = self.get_callee_saved(frame)
@@ -204,7 +207,8 @@ class ArmArch(Architecture):
                     yield thumb_instructions.AddSp(inc)
                     ssize -= inc
             else:
-                yield arm_instructions.AddImm(SP, SP, ssize)
+                for part in split_imm32(ssize):
+                    yield arm_instructions.AddImm(SP, SP, part)
 
         if self.has_option("thumb"):
             yield thumb_instructions.Pop({PC, R7})
@@ -488,6 +492,19 @@ class ThumbAssembler(BaseAssembler):
 
 def round_up(s):
     return s + (4 - s % 4)
+
+
+def split_imm32(value):
+    """Split a value into parts that fit an arm immediate operand.
+
+    Such an operand is an 8 bit value rotated by an even amount.
+    """
+    while value:
+        shift = (value & -value).bit_length() - 1
+        shift -= shift % 2
+        part = value & (0xFF << shift)
+        yield part
+        value -= part
 
 
 ARM_ASM_RT = """
